@@ -652,6 +652,75 @@ def spec_filt_len(I, st, a, k, n):
     return _FILT_LEN(f.term, lib.arrid(I, st, a[1]))
 
 
+_MOUT = z3.Function("model_out", lib.ObjS, z3.IntSort(), z3.IntSort(), z3.IntSort(), z3.IntSort(), z3.IntSort(), z3.RealSort())
+_MROWS = z3.Function("model_out_rows", lib.ObjS, z3.IntSort(), z3.IntSort(), z3.IntSort(), z3.IntSort())
+_MCOLS = z3.Function("model_out_cols", lib.ObjS, z3.IntSort(), z3.IntSort(), z3.IntSort(), z3.IntSort())
+
+
+def model_call(I, st, f, args, kw, node):
+    """The user's model: ANY pure function of (the model object, the parameter vector it is given, the simulation
+    length, the seed) returning a 2-d real array.  The vector is identified as `row r of array A` (np.repeat rows are
+    identified with the rows they repeat)."""
+    used("user model callable: a pure function of (model object, the parameter vector handed in, N, seed) returning a "
+         "2-d real array; may raise")
+    if len(args) != 3 or kw:
+        raise Unsupported("model called with other than (param, N, seed)")
+    vid = lib.arrid(I, st, args[0])
+    n_, sd = to_z3(args[1]), to_z3(args[2])
+    rows, cols = _MROWS(f.term, vid, n_, sd), _MCOLS(f.term, vid, n_, sd)
+    st.fact(z3.And(rows >= 0, cols >= 0))
+    return st.alloc(Arr((rows, cols), lambda t, c: _MOUT(f.term, vid, n_, sd, to_z3(t), to_z3(c)), kind="ndarray",
+                        etype="real"), "arr")
+
+
+def spec_mout(I, st, a, k, n):
+    """mout(model, vector, N, seed, t, c)"""
+    return _MOUT(a[0].term, lib.arrid(I, st, a[1]), to_z3(a[2]), to_z3(a[3]), to_z3(a[4]), to_z3(a[5]))
+
+
+_RNG_ITER = z3.Function("rng_iter", z3.IntSort(), z3.IntSort(), z3.IntSort())
+
+
+_RI_T, _RI_Q = z3.Int("rngit_t"), z3.Int("rngit_q")
+_RI_AX = [z3.ForAll([_RI_T], _RNG_ITER(_RI_T, 0) == _RI_T),
+          z3.ForAll([_RI_T, _RI_Q], z3.Implies(_RI_Q >= 0, _RNG_ITER(_RI_T, _RI_Q + 1) ==
+                                               lib._RNG_NEXT(_RNG_ITER(_RI_T, _RI_Q), z3.IntVal(2))),
+                    patterns=[_RNG_ITER(_RI_T, _RI_Q + 1)])]
+
+
+def spec_rng_iter(I, st, a, k, n):
+    """rng_iter(s, k): the generator state after k seed draws (_get_random_seed) from state s"""
+    have = {g.get_id() for g in st.facts if is_z3(g)}
+    for ax in _RI_AX:
+        if ax.get_id() not in have:
+            st.fact(ax)
+    return _RNG_ITER(to_z3(a[0]), to_z3(a[1]))
+
+
+def parallel_ctor(I, st, args, kw, node):
+    used("joblib.Parallel(n_jobs)(generator of delayed calls): the list of the results IN ORDER; delayed(f)(args) is "
+         "f(args) with the arguments evaluated in the parent, in order (pure callee)")
+    return lib.Opaque(z3.Const(fresh_name("pool"), lib.ObjS), "ParallelPool")
+
+
+def parallel_call(I, st, f, args, kw, node):
+    if len(args) != 1:
+        raise Unsupported("Parallel()(...) with other than one iterable")
+    return args[0]
+
+
+lib.LIB.update({"Parallel": parallel_ctor, "delayed": lambda I, st, a, k, n: a[0]})
+lib.OPAQUE_CALL["ParallelPool"] = parallel_call
+lib.OPAQUE_CALL["UserModel"] = model_call
+def spec_mshape(which):
+    def h(I, st, a, k, n):
+        return (_MROWS if which == 0 else _MCOLS)(a[0].term, lib.arrid(I, st, a[1]), to_z3(a[2]), to_z3(a[3]))
+    return h
+
+
+lib.BUILTIN_FUNCS["ediv"] = lambda I, st, a, k, n: to_z3(a[0]) / to_z3(a[1])   # Euclidean div (= a // b for b > 0)
+lib.BUILTIN_FUNCS.update({"mout": spec_mout, "rng_iter": spec_rng_iter, "mout_rows": spec_mshape(0),
+                          "mout_cols": spec_mshape(1)})
 lib.OPAQUE_CALL["Filter"] = filter_call
 lib.BUILTIN_FUNCS.update({"filt": spec_filt, "filt_len": spec_filt_len})
 
